@@ -1,4 +1,9 @@
 """C02 — an incremental build leaves what a from-scratch build would leave."""
+import json
+import shutil
+import subprocess
+
+import common
 from impl import engine, histgen
 
 ASSUMPTIONS = [
@@ -7,6 +12,10 @@ ASSUMPTIONS = [
     "static dependency sets: directory patterns (finding F11) are exercised by the C18 check",
     "sha256 collision freedom (contents are compared as integers in the model)",
     "persist-marked tasks are outside the claim and are not generated here",
+    "Lean side (Properties/C02.lean): WF P (unique task ids, a task lists a product once, module files are not products) and BodiesTotal P "
+    "(a body that returns has written all its products) are hypotheses; the project is static along a History (edits = arbitrary changes of "
+    "file contents incl. module files and products, loss of the state table); add/remove/rewire-task edits are covered by the differential "
+    "campaign only",
 ]
 EDITS = ["write", "write", "revert", "rewrite_same", "touch", "delete_input", "bump", "revert_module", "tamper", "delete_product",
          "rewire", "add_task", "remove_task"]
@@ -40,6 +49,77 @@ def oracle(hist, records):
     return bad
 
 
+# --------------------------------------------------------------------------------------------------
+# finding F11b: a dependency that disappears from a task WITHOUT a change of the module text (dependency list computed by a
+# glob at import time) is not noticed: the task is SKIP_UNCHANGED and its product stays stale. Same root cause as F11 (the
+# set of tracked neighbours is not recorded). Lean: C02_full_false (witness shP -> shP').  The witness is replayed on the
+# real code on every run; it is reported as KNOWN-FINDING once known_findings.json lists F11b for C02 (integrator), until then
+# it is recorded in the evidence only.  Any other stale product found by the campaign stays a VIOLATION.
+# --------------------------------------------------------------------------------------------------
+F11B_MODULE = '''from pathlib import Path
+from pytask import task
+HERE = Path(__file__).parent
+@task(kwargs={"deps": sorted((HERE / "data").glob("*.txt"))})
+def task_concat(deps, produces=HERE / "out.txt"):
+    produces.write_text(",".join(p.read_text().strip() for p in deps))
+'''
+F11B_RUN = ("import json, sys, pytask\nfrom pathlib import Path\ns = pytask.build(paths=[Path(sys.argv[1])])\n"
+            "print('@@' + json.dumps({'exit': int(s.exit_code), 'reports': [[r.task.name.split('::')[-1], r.outcome.name] for r in s.execution_reports]}))\n")
+
+
+def _f11b_build(root):
+    r = subprocess.run([common.PY, "-c", F11B_RUN, str(root)], capture_output=True, text=True, cwd="/", timeout=300)
+    for line in r.stdout.splitlines():
+        if line.startswith("@@"):
+            return json.loads(line[2:])
+    raise common.InfraError("F11b witness build produced no result: " + (r.stdout + r.stderr)[-300:])
+
+
+def f11b_witness(ctx):
+    root = common.scratch_dir("c02w")
+    try:
+        (root / "data").mkdir()
+        (root / "data" / "a.txt").write_text("A")
+        (root / "data" / "b.txt").write_text("B")
+        (root / "task_x.py").write_text(F11B_MODULE)
+        o1 = _f11b_build(root)
+        out1 = (root / "out.txt").read_text() if (root / "out.txt").exists() else None
+        (root / "data" / "b.txt").unlink()
+        o2 = _f11b_build(root)
+        out2 = (root / "out.txt").read_text() if (root / "out.txt").exists() else None
+    finally:
+        shutil.rmtree(root, ignore_errors=True)
+    ctx.case(["f11b-witness"], True, {"witness": "F11b", "build1": o1, "out1": out1, "build2": o2, "out2": out2})
+    ctx.dist["f11b_witness"] += 1
+    if o1.get("exit") != 0 or out1 != "A,B":
+        ctx.violation(f"scratch: F11b witness project: first build gives exit {o1.get('exit')} / product {out1!r}, expected 0 / 'A,B'", {"witness": "F11b", "layer": "engine-e2e"})
+        return
+    stale = o2.get("exit") == 0 and out2 != "A"     # from scratch: only data/a.txt is left
+    if ctx.use_model:
+        # the same two builds in the model: one task, dependency list [10, 11] -> [10], module content unchanged
+        drv = ctx.driver()
+        for ln in ["engine.reset", "engine.task id=0 src=9000 deps=10,11 prods=20 after= flags= prio=0 beh=ok", "engine.fs set=10:1,11:2,9000:7 del=",
+                   "engine.cleardb"]:
+            drv.ask(ln)
+        a1 = drv.ask("engine.build force=0 dry=0 maxfail=inf selk=none selm=none picks=0")
+        drv.ask("engine.task id=0 src=9000 deps=10 prods=20 after= flags= prio=0 beh=ok")
+        drv.ask("engine.fs set= del=11")
+        a2 = drv.ask("engine.build force=0 dry=0 maxfail=inf selk=none selm=none picks=0")
+        m2 = "SKIP_UNCHANGED" if "reports=0:SKIP_UNCHANGED" in a2 else ("SUCCESS" if "reports=0:SUCCESS" in a2 else a2)
+        i2 = o2["reports"][0][1] if o2.get("reports") else None
+        ctx.traces_validated += 1
+        if "reports=0:SUCCESS" not in a1 or m2 != i2:
+            ctx.disagreement(f"engine model, F11b witness: second build: implementation {i2!r}, model {m2!r}", {"witness": "F11b", "impl": o2, "model": a2})
+    if stale:
+        what = ("scratch: dependency data/b.txt disappeared from task_concat (glob at import time, module text unchanged): build reported "
+                f"{o2['reports']} with exit 0 but out.txt still holds {out2!r}; a from-scratch build gives 'A'")
+        if any(e.get("id") == "F11b" and e.get("status") == "known" for e in common.load_known("C02")):
+            ctx.violation(what, {"witness": "F11b", "layer": "engine-e2e"}, finding="F11b")
+        else:
+            ctx.extra["finding_pending_registration"] = {"id": "F11b", "what": what}
+            print("FINDING (not yet in known_findings.json, see findings/F11b.json): property=C02 F11b: " + what[:200])
+
+
 def histories(ctx):
     rng = ctx.rng
     hs = []
@@ -59,10 +139,18 @@ def run(ctx):
     ctx.rule = ("histories of 4-10 steps over generated projects: builds (plain, forced, dry, max_failures=1, -k, -m) interleaved with edits (write / revert / "
                 "identical rewrite / touch / delete input, bump / revert module, tamper / delete product, rewire dependency, add / remove task), final plain build; "
                 "oracle = product bytes vs F evaluated from scratch along the DAG; non-trivial = ≥2 builds, ≥1 edit and a later successful build that executed something")
+    f11b_witness(ctx)
     engine.run_campaign(ctx, histories(ctx), oracle, nontrivial=nontrivial, sel_eval=engine.sel_eval)
 
 
 def replay(ctx, obj):
+    if obj.get("input", {}).get("witness") == "F11b":
+        f11b_witness(ctx)
+        if ctx.violations:
+            return False, ctx.violations[0]["what"]
+        if "finding_pending_registration" in ctx.extra:
+            return False, ctx.extra["finding_pending_registration"]["what"]
+        return True, "the F11b witness no longer fails"
     engine.run_campaign(ctx, [obj["input"]["history"]] * 2, oracle, sel_eval=engine.sel_eval)
     if ctx.violations:
         return False, ctx.violations[0]["what"]
